@@ -112,19 +112,33 @@ func genSearchScenario(rng *rand.Rand, profile string, thorough bool) *SearchSce
 		// to other positions thousands of times per run
 		sc.TTBytes = pick(rng, []int{32, 32, 64, 128, 256})
 		sc.Style = "carry"
-		n := 150 + rng.IntN(250)
-		for i := 0; i < n; i++ {
-			l := g.Cur().Legal()
-			if len(l) == 0 || len(g.FinalReasons()) > 0 {
-				break
+		walks := 12 + rng.IntN(20)
+		for w := 0; w < walks; w++ {
+			var nr *Root
+			if w > 0 {
+				r2 := genRoot(rng, "")
+				nr = &r2
+				g = r2.Game()
 			}
-			m := pick(rng, l)
-			st := SearchStep{Req: Request{Limits: Limits{Nodes: -1, Depth: pick(rng, []int{1, 1, 1, 2, 2, 3})}, StopAtPoll: -1}, Play: m.String()}
-			if rng.IntN(16) == 0 {
-				st.Req.Nodes = rng.IntN(60)
+			n := 40 + rng.IntN(120)
+			for i := 0; i < n; i++ {
+				l := g.Cur().Legal()
+				if len(l) == 0 || len(g.FinalReasons()) > 0 {
+					break
+				}
+				m := pick(rng, l)
+				st := SearchStep{Req: Request{Limits: Limits{Nodes: -1, Depth: pick(rng, []int{1, 1, 1, 2, 2, 3})}, StopAtPoll: -1}, Play: m.String(), NewRoot: nr}
+				nr = nil
+				if rng.IntN(16) == 0 {
+					st.Req.Nodes = rng.IntN(60)
+				}
+				g.Push(m)
+				sc.Steps = append(sc.Steps, st)
 			}
-			g.Push(m)
-			sc.Steps = append(sc.Steps, st)
+			if nr != nil {
+				// the root was final from the start: search it once
+				sc.Steps = append(sc.Steps, SearchStep{Req: Request{Limits: Limits{Nodes: -1, Depth: 2}, StopAtPoll: -1}, Play: "", NewRoot: nr})
+			}
 		}
 		return sc
 	case "c07game":
